@@ -650,3 +650,170 @@ def check_coarse_beyond_horizon(case):
     except Exception as e:
         out.append(fail('C08.coarse.window_beyond_horizon_is_clipped', 'basic_classes:Timegrid.__init__', case, dict(case), f'{type(e).__name__}: {str(e)[:120]}'))
     return out
+
+
+# ------------------------------------------------------------------------------------------------ io.extract_output (C01, C04, C05, C18, C20)
+def _output_pool(eao, rng, T, pts):
+    """a random small portfolio drawn from a pool of asset kinds (one / two nodes, one / several rows per variable,
+    internal variables, order book, scale variable) in random order"""
+    A, B, C = eao.assets.Node('A'), eao.assets.Node('B'), eao.assets.Node('C')
+    w = lambda: rng.choice([(0, T), (0, T), (1, T), (0, max(1, T - 2)), (2, T)])
+    pool = []
+
+    def add(kind):
+        a, b = w()
+        if kind == 'contract':
+            pool.append(eao.assets.SimpleContract(name='c%d' % len(pool), nodes=rng.choice([A, B]), price='p', min_cap=-2., max_cap=3., start=pts[a], end=pts[b]))
+        elif kind == 'spread':
+            pool.append(eao.assets.Contract(name='k%d' % len(pool), nodes=rng.choice([A, B]), price='p', min_cap=-2., max_cap=3., extra_costs=.5, start=pts[a], end=pts[b]))
+        elif kind == 'transport':
+            pool.append(eao.assets.Transport(name='t%d' % len(pool), nodes=[A, B], min_cap=0., max_cap=2., efficiency=.8, costs_const=.1, start=pts[a], end=pts[b]))
+        elif kind == 'storage':
+            pool.append(eao.assets.Storage(name='s%d' % len(pool), nodes=rng.choice([A, B]), size=3., cap_in=1., cap_out=1.5, eff_in=.9, inflow=rng.choice([0., .2]),
+                                           start=pts[a], end=pts[b]))
+        elif kind == 'storage2':
+            pool.append(eao.assets.Storage(name='z%d' % len(pool), nodes=[A, C], size=3., cap_in=1., cap_out=1.5, eff_in=.9, start=pts[a], end=pts[b]))
+        elif kind == 'storage_mip':
+            pool.append(eao.assets.Storage(name='m%d' % len(pool), nodes=A, size=3., cap_in=1., cap_out=1.5, eff_in=.9, no_simult_in_out=True, start=pts[a], end=pts[b]))
+        elif kind == 'orderbook':
+            ob = pd.DataFrame({'start': [pts[0], pts[min(1, T - 1)]], 'end': [pts[min(2, T)], pts[T]], 'capa': [1., -2.], 'price': [3., 8.]})
+            pool.append(eao.assets.OrderBook(name='o%d' % len(pool), nodes=rng.choice([A, B]), orders=ob))
+        elif kind == 'scaled':
+            base = eao.assets.SimpleContract(name='b%d' % len(pool), nodes=A, price='p', min_cap=-1., max_cap=1.)
+            pool.append(eao.assets.ScaledAsset(name='x%d' % len(pool), base_asset=base, max_scale=4., norm_scale=2., fix_costs=.3, start=pts[a], end=pts[b]))
+        elif kind == 'plant':
+            pool.append(eao.assets.Plant(name='g%d' % len(pool), nodes=B, min_cap=1., max_cap=3., extra_costs=4., start_costs=1., min_runtime=2, start=pts[a], end=pts[b]))
+        elif kind == 'multi':
+            pool.append(eao.assets.MultiCommodityContract(name='u%d' % len(pool), nodes=[A, B], factors_commodities=[1., -.5], min_cap=0., max_cap=2.,
+                                                          extra_costs=.2, start=pts[a], end=pts[b]))
+    kinds = ['contract', 'spread', 'transport', 'storage', 'storage2', 'storage_mip', 'orderbook', 'scaled', 'plant', 'multi']
+    for kind in rng.sample(kinds, rng.randint(2, 5)):
+        add(kind)
+    rng.shuffle(pool)
+    return pool
+
+
+def check_extract_output(case):
+    """run-time contract of io.extract_output(portf, op, res, prices) on ARBITRARY result vectors (not only optimiser
+    output): every table is the stated function of (mapping, x, duals) --
+      dispatch[t, asset(node)]  = sum over the asset's dispatch rows at that node and step of x[var] * disp_factor    (C01)
+      DCF[t, asset]             = the asset's own dcf(); summary value = res.value                                   (C04)
+      internal variable columns = x of the internal variable at its step; storage charge / discharge / fill level     (C05)
+      prices[t, node]           = - dual of the nodal row recorded for (t, node), nothing elsewhere                   (C18)
+      special                   = one line per non-dispatch, non-internal mapping row (+ order book lines)            (C20, C16)"""
+    eao = eao_mod()
+    out = []
+    rng = random.Random(case['seed'])
+    T = case['T']
+    start = pd.Timestamp('2021-01-01')
+    tg = eao.assets.Timegrid(start, start + pd.Timedelta(T, 'h'), freq='h')
+    pts = list(tg.timepoints) + [tg.end]
+    assets = _output_pool(eao, rng, T, pts)
+    pf = eao.portfolio.Portfolio(assets)
+    prices = {'p': np.asarray([float(rng.randint(1, 9)) for _ in range(T)])}
+    op = pf.setup_optim_problem(prices, tg)
+    n = len(op.c)
+    x = np.asarray([round(rng.uniform(-3, 3), 2) for _ in range(n)])
+    nN = len(op.map_nodal_restr) if op.map_nodal_restr is not None else 0
+    duals = {'N': np.asarray([round(rng.uniform(-5, 5), 2) for _ in range(nN)]), 'bound_u': None, 'bound_l': None} if case.get('duals', True) else None
+    res = eao.optimization.Results(value=float(-np.dot(op.c, x)), x=x, duals=duals)
+    desc = dict(case, assets=[type(a).__name__ + ':' + a.name for a in assets])
+    o = eao.io.extract_output(pf, op, res, prices)
+    m = op.mapping
+    times = list(tg.timepoints)
+    single_node = len(pf.nodes) == 1
+
+    def F(name, detail):
+        out.append(fail(name, 'io:extract_output', case, dict(case), f'{detail} | portfolio {desc["assets"]}'))
+    # ---- dispatch
+    d = o['dispatch']
+    exp_cols = []
+    for a in assets:
+        for nd in a.nodes:
+            col = a.name if single_node else f'{a.name} ({nd.name})'
+            exp_cols.append(col)
+            exp = np.zeros(T)
+            rows = m[(m['asset'] == a.name) & (m['type'] == 'd') & (m['node'] == nd.name)]
+            for i, r in rows.iterrows():
+                exp[int(r['time_step'])] += x[i] * r['disp_factor']
+            if col not in d.columns:
+                F('C01.output.dispatch_column_per_asset_and_node', f'missing column {col}')
+            elif not np.allclose(d[col].values.astype(float), exp, atol=1e-9):
+                F('C01.output.dispatch_is_sum_of_variable_times_factor', f'column {col}: reported {d[col].values.tolist()} expected {exp.tolist()}')
+    if sorted(set(d.columns)) != sorted(set(exp_cols)):
+        F('C01.output.dispatch_column_per_asset_and_node', f'columns {list(d.columns)} expected {exp_cols}')
+    # ---- DCF
+    dcf = o['DCF']
+    tot = 0.
+    for a in assets:
+        own = np.asarray(a.dcf(op, res), dtype=float)
+        tot += own.sum()
+        if a.name not in dcf.columns or not np.allclose(dcf[a.name].values.astype(float), own, atol=1e-9):
+            F('C04.output.dcf_table_is_the_assets_dcf', f'asset {a.name}')
+    if abs(float(o['summary'].loc['value', 'Values']) - res.value) > 1e-9:
+        F('C04.output.summary_value_is_result_value', f"summary {o['summary'].loc['value', 'Values']} result {res.value}")
+    if abs(tot - res.value) > 1e-6 * max(1., abs(res.value)):
+        F('C04.output.value_equals_sum_of_dcf', f'sum of DCF {tot} vs -c.x {res.value}')
+    # ---- internal variables
+    iv = o['internal_variables']
+    for a in assets:
+        rows = m[(m['asset'] == a.name) & (m['type'] == 'i')]
+        for v in rows['var_name'].unique():
+            col = f'{a.name} ({v})'
+            sub = rows[rows['var_name'] == v]
+            exp = {int(r['time_step']): x[i] for i, r in sub.iterrows()}
+            got = iv[col] if col in iv.columns else None
+            ok = got is not None and all((t in exp and abs(float(got.iloc[t]) - exp[t]) < 1e-9) or (t not in exp and (got.iloc[t] is None or pd.isnull(got.iloc[t])))
+                                         for t in range(T))
+            if not ok:
+                F('C05.output.internal_variable_reported_at_its_step', f'column {col}')
+        if isinstance(a, eao.assets.Storage):
+            rows = m[(m['asset'] == a.name) & (m['type'] == 'd')]
+            ch, dis = np.zeros(T), np.zeros(T)
+            for i, r in rows.iterrows():
+                ch[int(r['time_step'])] += max(0., -x[i]) * r['disp_factor']
+                dis[int(r['time_step'])] += min(0., -x[i]) * r['disp_factor']
+            for what, exp in (('charge', ch), ('discharge', dis)):
+                col = f'{a.name}_{what}'
+                if col not in iv.columns or not np.allclose(iv[col].values.astype(float), exp, atol=1e-9):
+                    F(f'C05.output.storage_{what}_reported_truly', f'column {col}: reported {iv[col].values.tolist() if col in iv.columns else None} expected {exp.tolist()}')
+            fl = np.asarray(a.fill_level(op, res), dtype=float)
+            col = a.name + '_fill_level'
+            if col not in iv.columns or not np.allclose(iv[col].values.astype(float), fl, atol=1e-9, equal_nan=True):
+                F('C05.output.fill_level_reported_truly', f'column {col}')
+    # ---- nodal prices
+    pr = o['prices']
+    if duals is not None:
+        seen = set()
+        for ii, (t, node) in enumerate(op.map_nodal_restr):
+            col = 'nodal price: ' + node
+            seen.add((int(t), col))
+            if col not in pr.columns or abs(float(pr[col].iloc[int(t)]) - (-duals['N'][ii])) > 1e-9:
+                F('C18.place.price_is_minus_dual_of_the_recorded_row', f'row {ii} (step {t}, node {node})')
+                break
+        for col in [c for c in pr.columns if c.startswith('nodal price: ')]:
+            for t in range(T):
+                if (t, col) not in seen and not pd.isnull(pr[col].iloc[t]):
+                    F('C18.place.no_price_without_nodal_row', f'{col} step {t}')
+                    break
+    for k, v in prices.items():
+        col = 'input data: ' + k
+        if col not in pr.columns or not np.allclose(pr[col].values.astype(float), v):
+            F('C18.output.given_prices_passed_through', col)
+    # ---- special
+    sp_ = o['special']
+    exp_rows = []
+    for a in assets:
+        rows = m[(m['asset'] == a.name) & (~m['type'].isin(['d', 'i']))]
+        for i, r in rows.iterrows():
+            exp_rows.append((r['asset'], r['type'], r['var_name'], round(float(x[i]), 9), round(float(x[i] * op.c[i]), 9)))
+        if isinstance(a, eao.assets.OrderBook):
+            rows = m[m['asset'] == a.name]
+            rows = rows[~rows.index.duplicated(keep='first')]
+            for i, r in rows.iterrows():
+                exp_rows.append((r['asset'], r['type'], r['var_name'], round(float(x[i]), 9), round(float(x[i] * op.c[i]), 9)))
+    got_rows = [(r['asset'], r['variable'], r['name'], round(float(r['value']), 9), round(float(r['costs']), 9)) for _, r in sp_.iterrows()]
+    key = lambda t: tuple(str(z) for z in t)
+    if sorted(got_rows, key=key) != sorted(exp_rows, key=key):
+        F('C20.output.special_lines_per_special_variable', f'got {got_rows[:4]}... expected {exp_rows[:4]}...')
+    return out
